@@ -15,6 +15,9 @@ import (
 	dbm "github.com/cometbft/cometbft-db"
 	sdk "github.com/cosmos/cosmos-sdk/types"
 	authtypes "github.com/cosmos/cosmos-sdk/x/auth/types"
+	consensusparamkeeper "github.com/cosmos/cosmos-sdk/x/consensus/keeper"
+	consensusparamtypes "github.com/cosmos/cosmos-sdk/x/consensus/types"
+	aoltypes "github.com/medibloc/panacea-core/v2/x/aol/types"
 	govtypes "github.com/cosmos/cosmos-sdk/x/gov/types"
 	govv1 "github.com/cosmos/cosmos-sdk/x/gov/types/v1"
 	paramproposal "github.com/cosmos/cosmos-sdk/x/params/types/proposal"
@@ -138,6 +141,71 @@ func monC10StaleUpgradeInfo(s *Stream, plan string) {
 			rb, hb := runBlock(b, t, nil)
 			if strings.Join(ra, "\n") != strings.Join(rb, "\n") || !bytes.Equal(ha, hb) {
 				return "fail #differs-from-uninterrupted-twin"
+			}
+		}
+		return "pass"
+	}))
+}
+
+// mon.c10.restart-after-param-change: what governance changes while the node runs is read by BaseApp itself — the
+// consensus parameters (block gas limit …).  Two nodes execute the same parameter change (the message a passed
+// proposal runs, with the governance authority); one is restarted; a block with a transaction whose gas limit lies
+// between the new and the old block gas limit must give the same results and hash on both.
+func monC10RestartAfterParamChange(s *Stream) {
+	name := "mon.c10.restart-after-param-change"
+	s.Inflight(name)
+	s.Emit(name, guard(func() string {
+		accts := rtAccts()
+		a, err := NewChain(dbm.NewMemDB(), tmpHome(), accts, 100000, nil)
+		if err != nil {
+			return "fail #genesis " + err.Error()
+		}
+		b, _ := NewChain(dbm.NewMemDB(), tmpHome(), accts, 100000, nil)
+		t := a.Time
+		for i := 0; i < 2; i++ {
+			t = t.Add(5 * time.Second)
+			runBlock(a, t, nil)
+			runBlock(b, t, nil)
+		}
+		gov := authtypes.NewModuleAddress(govtypes.ModuleName).String()
+		t = t.Add(5 * time.Second)
+		for _, c := range []*Chain{a, b} {
+			c.Begin(t)
+			cp, err := c.App.ConsensusParamsKeeper.Get(c.DeliverCtx())
+			if err != nil || cp == nil || cp.Block == nil {
+				return "pass #no-consensus-params"
+			}
+			blk := *cp.Block
+			blk.MaxGas = 1000000
+			ms := consensusparamkeeper.NewMsgServerImpl(c.App.ConsensusParamsKeeper)
+			if _, err := ms.UpdateParams(sdk.WrapSDKContext(c.DeliverCtx()), &consensusparamtypes.MsgUpdateParams{Authority: gov, Block: &blk, Evidence: cp.Evidence, Validator: cp.Validator}); err != nil {
+				return "pass #param-change-refused " + err.Error()
+			}
+			c.End()
+			c.Commit()
+		}
+		t = t.Add(5 * time.Second)
+		runBlock(a, t, nil)
+		runBlock(b, t, nil)
+		a = reopen(a)
+		tx, err := b.BuildTx(TxSpec{Msgs: []sdk.Msg{&aoltypes.MsgCreateTopicRequest{TopicName: "after-change", OwnerAddress: accts[0].Bech()}},
+			Signers: []SignerSpec{{Acct: accts[0]}}, Fee: 1, Gas: 1500000})
+		if err != nil {
+			return "fail #setup " + err.Error()
+		}
+		for i := 0; i < 2; i++ {
+			t = t.Add(5 * time.Second)
+			var txs [][]byte
+			if i == 0 {
+				txs = [][]byte{tx}
+			}
+			ra, ha := runBlock(a, t, txs)
+			rb, hb := runBlock(b, t, txs)
+			if strings.Join(ra, "\n") != strings.Join(rb, "\n") {
+				return "fail #results-differ-from-uninterrupted-twin"
+			}
+			if !bytes.Equal(ha, hb) {
+				return "fail #apphash-differs-from-uninterrupted-twin"
 			}
 		}
 		return "pass"
